@@ -235,7 +235,7 @@ def parse_kani(out):
             st = "undecided"
         cm = re.search(r"\*\* (\d+) of (\d+) failed", b)
         checks = int(cm.group(2)) if cm else 0
-        failed = re.findall(r"Failed Checks: (.*)\n\s*File: \"([^\"]*)\", line (\d+), in (\S+)", b)
+        failed = [(re.sub(r"\s+", " ", a), f, l, fn) for a, f, l, fn in re.findall(r"Failed Checks: ((?:.|\n)*?)\n\s*File: \"([^\"]*)\", line (\d+), in (\S+)", b)]
         tm = re.search(r"Verification Time: ([0-9.]+)s", b)
         und = any("unwinding assertion" in f[0] for f in failed)
         res[h] = {"status": st, "checks": checks, "failed": failed, "time": float(tm.group(1)) if tm else 0.0,
